@@ -262,7 +262,7 @@ open Coap.M
 
 theorem tokenHdr_eq (tkl : Nat) (tk : Bytes) (h : tkl < 16) :
     match Spec.ext tkl tk with
-    | none => (tokenHdr tkl tk).toOption = none
+    | none => tokenHdr tkl tk = R.rej
     | some (n, r) => tokenHdr tkl tk = R.ok (n + (tk.length - r.length), tk.length - r.length) := by
   rcases nib_cases tkl h with h | h | h | h
   · have h3 : ¬ tkl = 13 := by omega
@@ -270,17 +270,19 @@ theorem tokenHdr_eq (tkl : Nat) (tk : Bytes) (h : tkl < 16) :
     simp [Spec.ext, tokenHdr, h, h2, h3]
   · subst h
     rcases tk with _ | ⟨a, r⟩
-    · simp [Spec.ext, tokenHdr, rd_nil, R.toOption]
+    · simp [Spec.ext, tokenHdr]
     · simp [Spec.ext, tokenHdr, rd_cons_zero]
   · subst h
     rcases tk with _ | ⟨a, _ | ⟨b, r⟩⟩
-    · simp [Spec.ext, tokenHdr, rd_nil, R.toOption]
-    · simp [Spec.ext, tokenHdr, rd_nil, rd_cons_zero, rd_cons_succ, R.toOption]
+    · simp [Spec.ext, tokenHdr]
+    · simp [Spec.ext, tokenHdr]
     · have := byte_lt a
       have e : a.toNat * 256 % 65536 = a.toNat * 256 := Nat.mod_eq_of_lt (by omega)
-      simp [Spec.ext, tokenHdr, rd_cons_zero, rd_cons_succ, e]; omega
+      have h1 : ¬ (r.length + 1 + 1 < 2) := by omega
+      have h2 : r.length + 1 + 1 - r.length = 2 := by omega
+      simp [Spec.ext, tokenHdr, rd_cons_zero, rd_cons_succ, e, h1, h2]
   · subst h
-    simp [Spec.ext, tokenHdr, R.toOption]
+    simp [Spec.ext, tokenHdr]
 
 theorem finish_eq (w : R (Bool × List (Nat × Bytes) × Bytes)) (mk : List (Nat × Bytes) → Bytes → Msg) :
     (w >>= fun (x : Bool × List (Nat × Bytes) × Bytes) =>
@@ -314,10 +316,7 @@ theorem parseBody_eq (type code mid tkl : Nat) (tk : Bytes) (h : tkl < 16) :
   cases hE : Spec.ext tkl tk with
   | none =>
     rw [hE] at ht
-    rcases hT : tokenHdr tkl tk with v | _ | _
-    · rw [hT] at ht; simp [R.toOption] at ht
-    · simp [R.toOption]
-    · simp [R.toOption]
+    simp [ht, R.toOption]
   | some p =>
     obtain ⟨n, r⟩ := p
     rw [hE] at ht
@@ -592,4 +591,151 @@ theorem iter_succ_cons (fuel : Nat) (b : UInt8) (r0 : Bytes) (number : Nat) (hff
     simp only []
     cases iter fuel (List.drop p.size (b :: r0)) ((number + p.delta) % 65536) <;> rfl
 
+end Coap
+
+namespace Coap
+open Coap.M
+
+theorem tokenHdr_ne_oob (tkl : Nat) (tk : Bytes) (h : tkl < 16) : tokenHdr tkl tk ≠ R.oob := by
+  have := tokenHdr_eq tkl tk h
+  cases hE : Spec.ext tkl tk with
+  | none => rw [hE] at this; simp [this]
+  | some p => obtain ⟨n, r⟩ := p; rw [hE] at this; simp [this]
+
+theorem walk_ne_oob (code fuel : Nat) (bs : Bytes) (maxOpt : Nat) :
+    walk code fuel bs maxOpt ≠ R.oob := by
+  induction fuel generalizing bs maxOpt with
+  | zero => simp [walk]
+  | succ fuel ih =>
+    rcases bs with _ | ⟨b, r0⟩
+    · simp [walk]
+    · by_cases hff : b = 0xFF
+      · simp [walk, hff]
+      · rw [walk_succ_cons _ _ _ _ _ hff]
+        cases hO : optSpec b r0 with
+        | oob => exact absurd hO (optSpec_ne_oob b r0)
+        | rej => simp
+        | ok p =>
+          simp only []
+          split
+          · simp
+          · have := ih (List.drop p.size (b :: r0)) ((maxOpt + p.delta) % 65536)
+            cases hw : walk code fuel (List.drop p.size (b :: r0)) ((maxOpt + p.delta) % 65536) with
+            | oob => exact absurd hw this
+            | rej => simp
+            | ok v => simp
+
+theorem parseBody_ne_oob (type code mid tkl : Nat) (tk : Bytes) (h : tkl < 16) :
+    parseBody type code mid tkl tk ≠ R.oob := by
+  unfold parseBody
+  have h1 := tokenHdr_ne_oob tkl tk h
+  cases hT : tokenHdr tkl tk with
+  | oob => exact absurd hT h1
+  | rej => simp
+  | ok v =>
+    obtain ⟨etl, tofs⟩ := v
+    simp only [R.bind_ok]
+    split
+    · split <;> simp
+    · split
+      · simp
+      · have h2 := walk_ne_oob code (tk.length + 1) (List.drop etl tk) 0
+        cases hw : walk code (tk.length + 1) (List.drop etl tk) 0 with
+        | oob => exact absurd hw h2
+        | rej => simp
+        | ok w =>
+          obtain ⟨good, os, rest⟩ := w
+          simp only [R.bind_ok]
+          split
+          · split <;> simp
+          · split
+            · simp
+            · split <;> simp
+
+theorem rd_lt (bs : Bytes) (i : Nat) (h : i < bs.length) : ∃ v, rd bs i = R.ok v := by
+  simp [rd, List.getElem?_eq_getElem h]
+
+theorem parse_ne_oob (p : Proto) (bs : Bytes) : M.parse p bs ≠ R.oob := by
+  cases p
+  · -- udp
+    rcases bs with _ | ⟨b0, _ | ⟨c, _ | ⟨m1, _ | ⟨m2, rest⟩⟩⟩⟩
+    · simp [M.parse]
+    · simp [M.parse]
+    · simp [M.parse]
+    · simp [M.parse]
+    · have hl : ¬ (4 > rest.length + 1 + 1 + 1 + 1) := by omega
+      have hb := byte_lt b0
+      simp only [M.parse, List.length_cons, rd_cons_zero, rd_cons_succ, R.bind_ok, hl, if_false]
+      split
+      · simp
+      · split
+        · simp
+        · exact parseBody_ne_oob _ _ _ _ _ (by omega)
+  · -- tcp
+    rcases bs with _ | ⟨b0, r0⟩
+    · simp [M.parse]
+    have hb := byte_lt b0
+    have hL : b0.toNat / 16 < 16 := by omega
+    have hT : b0.toNat % 16 < 16 := by omega
+    have hne : ¬ ((b0 :: r0).length = 0) := by simp
+    have hhs : headerSize .tcp (b0.toNat / 16 * 16) = headerSize .tcp b0.toNat := by
+      simp only [headerSize]; rw [show b0.toNat / 16 * 16 / 16 = b0.toNat / 16 by omega]
+    have hlen := tcpLenField_eq b0 r0 _ hL
+    rw [hhs] at hlen
+    have htx : (if b0.toNat % 16 = 13 then 1 else if b0.toNat % 16 = 14 then 2 else 0) = tokExt (b0.toNat % 16) := rfl
+    simp only [M.parse, hne, if_false, rd_cons_zero, R.bind_ok, parseSizeTcp, htx]
+    generalize hhsv : headerSize .tcp b0.toNat = hs at *
+    split
+    · simp
+    · rename_i hlong
+      simp only [List.length_cons] at hlong
+      cases hE : Spec.tcpLen (b0.toNat / 16) r0 with
+      | none => rw [hE] at hlen; exfalso; omega
+      | some q =>
+        obtain ⟨len, r1⟩ := q
+        rw [hE] at hlen
+        obtain ⟨pre, hpre, hpl, hfld⟩ := hlen
+        rcases r1 with _ | ⟨c, r2⟩
+        · exfalso; rw [hpre] at hlong; simp at hlong; omega
+        · have hsplit : b0 :: r0 = (b0 :: pre ++ [c]) ++ r2 := by rw [hpre]; simp
+          have hplen : (b0 :: pre ++ [c]).length = hs := by simp; omega
+          have htok := tcpTokField_eq (b0 :: pre ++ [c]) r2 _ hT
+          rw [hplen, ← hsplit] at htok
+          have hrd : rd (b0 :: r0) (hs - 1) = R.ok c.toNat := by
+            have : b0 :: r0 = (b0 :: pre) ++ (c :: r2) := by rw [hpre]; simp
+            rw [this, show hs - 1 = (b0 :: pre).length by simp; omega, rd_app0, rd_cons_zero]
+          simp only [hfld, R.bind_ok]
+          have hfin : ∀ size : Nat, (if (b0 :: r0).length ≠ hs + size then (R.rej : R Msg) else do
+                let c ← rd (b0 :: r0) (hs - 1)
+                parseBody 0 c 0 (b0.toNat % 16) (List.drop hs (b0 :: r0))) ≠ R.oob := by
+            intro size
+            split
+            · simp
+            · rw [hrd]; simp only [R.bind_ok]; exact parseBody_ne_oob _ _ _ _ _ hT
+          cases hF : Spec.tokenField (b0.toNat % 16) r2 with
+          | none =>
+            rw [hF] at htok
+            rcases htok with h15 | hshort
+            · simp only [tcpTokField, h15, show ¬ (15 < 13) by omega, show ¬ (15 = 13) by omega,
+                show ¬ (15 = 14) by omega, if_false, R.bind_ok]
+              rw [← h15]; exact hfin _
+            · exfalso
+              have := congrArg List.length hsplit
+              rw [List.length_append, hplen] at this
+              simp only [List.length_cons] at this
+              omega
+          | some tf =>
+            rw [hF] at htok
+            simp only [htok.2, R.bind_ok]
+            exact hfin _
+  · -- ws
+    rcases bs with _ | ⟨b0, _ | ⟨c, rest⟩⟩
+    · simp [M.parse]
+    · simp [M.parse]
+    · have hl : ¬ (2 > rest.length + 1 + 1) := by omega
+      have hb := byte_lt b0
+      simp only [M.parse, List.length_cons, rd_cons_zero, rd_cons_succ, R.bind_ok, hl, if_false]
+      split
+      · simp
+      · exact parseBody_ne_oob _ _ _ _ _ (by omega)
 end Coap
